@@ -316,7 +316,29 @@ func runC02(r *Run) {
 			}
 		}
 		if off == nil {
-			lp.Violation(dm, instrPos(wPhi), "no offset counter", "the loop is not controlled by a consumed-bytes counter: undecided")
+			// no counter: the loop runs while the window is non-empty; with the first window being exactly the
+			// declared body (C02.window) and each step cutting 4+padded bytes off its front, that ends exactly
+			// when the declared body is consumed
+			for _, b := range dm.Blocks {
+				if iff, ok := b.Instrs[len(b.Instrs)-1].(*ssa.If); ok && b == wPhi.Block() {
+					loopCond = norm(iff.Cond, true)
+				}
+			}
+			lp.Instance("loop condition "+loopCond, true, map[string]string{"continue_while": loopCond})
+			if loopCond != "-len(W) <= -1" {
+				lp.Violation(dm, instrPos(wPhi), "loop condition "+loopCond, "without a consumed-bytes counter the loop must continue exactly while the window is non-empty")
+			}
+			step := linExpr{C: 4, Terms: map[string]int64{}}.add(le.Eval(pCall), 1)
+			for i, we := range wPhi.Edges {
+				if !blockDominates(wPhi.Block(), wPhi.Block().Preds[i]) {
+					continue
+				}
+				root, lo, hi := le.window(we)
+				lp.Instance("window step "+lo.String(), true, map[string]string{"window_step": lo.String()})
+				if root != ssa.Value(wPhi) || hi != nil || !lo.equal(step) {
+					lp.Violation(dm, instrPos(wPhi), "window step", "the window does not advance by 4 + padded length")
+				}
+			}
 		} else {
 			rename[pr.K.Key(off)] = "offset"
 			// recompute loop condition text with the offset name
